@@ -55,13 +55,14 @@ def step_budget(tool, opts, data):
 
 class Env:
     """The I/O environment of one run (what the scheduler decides)."""
-    __slots__ = ("in_kind", "out_kind", "in_chunk", "out_chunk", "in_seed", "out_seed")
+    __slots__ = ("in_kind", "out_kind", "in_chunk", "out_chunk", "in_seed", "out_seed", "out_pre")
 
     def __init__(self, in_kind="path", out_kind="path", in_chunk="whole", out_chunk="whole",
-                 in_seed=0, out_seed=0):
+                 in_seed=0, out_seed=0, out_pre=0):
         self.in_kind, self.out_kind = in_kind, out_kind
         self.in_chunk, self.out_chunk = in_chunk, out_chunk
         self.in_seed, self.out_seed = in_seed, out_seed
+        self.out_pre = out_pre      # length of a file already sitting at the output path
 
     def to_json(self):
         return {k: getattr(self, k) for k in self.__slots__}
@@ -73,7 +74,7 @@ class Env:
     def key(self):
         return (self.in_kind, self.out_kind,
                 self.in_chunk if self.in_kind != "path" else "-",
-                self.out_chunk if self.out_kind != "path" else "-")
+                self.out_chunk if self.out_kind != "path" else ("pre%d" % self.out_pre if self.out_pre else "-"))
 
 
 def env_valid(tool, env):
@@ -128,6 +129,9 @@ def simulate(tool, opts, data: bytes, env: Env, damaged=(), boundaries=(), budge
     with w:
         if not use_stdin:
             w.fs.put(IN_PATH, data, damaged)
+        if env.out_kind == "path" and env.out_pre:
+            import random as _r
+            w.fs.put(outp, _r.Random(env.out_seed).randbytes(env.out_pre))
         o = run_tool(w, tool, argv, budget)
     r = Run()
     r.tool, r.argv, r.outcome, r.steps, r.budget = tool, argv, o, o.steps, budget
